@@ -71,6 +71,27 @@ void log_destination_vtable_register(const struct log_destination_vtable *orig)
     set_insert(&log_vtables, sn);
 }
 
+/* Destination names are "<type>" or "<type>:<argument>".  The type is
+ * looked up without regard to case (see log_vtables), but the argument
+ * - a file name, for instance - is taken literally.
+ */
+static int log_destination_cmp(const void *a_, const void *b_)
+{
+    const char * const *a = a_, * const *b = b_;
+    const char *sep_a = strchr(*a, ':');
+    const char *sep_b = strchr(*b, ':');
+    size_t len_a = sep_a ? (size_t)(sep_a - *a) : strlen(*a);
+    size_t len_b = sep_b ? (size_t)(sep_b - *b) : strlen(*b);
+    int res;
+
+    res = strncasecmp(*a, *b, (len_a < len_b) ? len_a : len_b);
+    if (res)
+        return res;
+    if (len_a != len_b)
+        return (len_a < len_b) ? -1 : 1;
+    return strcmp(sep_a ? sep_a : "", sep_b ? sep_b : "");
+}
+
 static void log_destination_cleanup(void *data)
 {
     struct log_destination *ld = data;
@@ -528,7 +549,7 @@ static CONF_UPDATE_HOOK(log_rescan_type)
 static void log_init(void)
 {
     reg_exit_func(log_cleanup);
-    log_destinations.compare = set_compare_charp;
+    log_destinations.compare = log_destination_cmp;
     log_destinations.cleanup = log_destination_cleanup;
     log_vtables.compare = set_compare_charp;
     log_types.compare = set_compare_charp;
